@@ -385,23 +385,25 @@ def sign_unsub(ctx, prog):
                      "InUse states: the callback keeps running after unsubscribe", fn=U)
     D = ctx.need_fn(R, q.OBS_IMPL + "disallow_future_use")
     if D is not None:
-        du = DefUse(D)
-        ops = coll_ops(prog, D)
+        ops = {id(o.site): o for o in coll_ops(prog, D)}
+
+        def d(F_, t, du_):
+            o = ops[id(t)]
+            return "%s:%s" % (o.sign, ",".join(sorted(f.rsplit(".", 1)[-1] for f in o.fields)))
+        acts = [dtab.Action("coll", lambda t: id(t) in ops, d)]
+        tb = dtab.table(D, [dtab.Sym("state", dtab.is_field_get("state"), dtab.enum_domain(prog, OS))], acts,
+                        record_returns=False, path_sensitive=True)
         arms = {}
-        for o in ops:
-            for s, can in D.cfg().controlling_switches(o.bb):
-                e = expr(D, D.blocks[s]["term"]["on"], du)
-                if e[0] == "discr" and dtab.is_field_get("state")(e[1]):
-                    for x in can:
-                        for v in D.cfg().edge_values(s, x):
-                            arms.setdefault(prog.variant_by_discr(OS, v), []).append(
-                                (o.sign, sorted(f.rsplit(".", 1)[-1] for f in o.fields)))
-            ctx.site(R, D, "bb%d %s %s" % (o.bb, o.method, sorted(o.fields)))
-        if arms.get("Created") == [("clear", ["on_update_handlers"])] and \
-                arms.get("InUse") == [("+", ["disallowed_observers"])]:
+        for (st,), res in sorted(tb.items()):
+            arms[st] = sorted({tuple(a[1] for a in r if a[0] == "coll") for r in res})
+            ctx.site(R, D, "disallow_future_use(%s) -> %s" % (st, arms[st]))
+        want = {"Created": [("clear:on_update_handlers",)], "InUse": [("+:disallowed_observers",)],
+                "Disallowed": [()], "Unlinked": [()]}
+        if arms == want:
             ctx.ok(R, "disallow:arms")
         else:
-            ctx.fail(R, "disallow:arms", "disallow_future_use arms differ from the specification: %s" % arms, fn=D)
+            ctx.fail(R, "disallow:arms", "disallow_future_use per state does %s, specified %s (Created: drop the handlers; "
+                     "InUse: queue the unlink; otherwise nothing)" % (arms, want), fn=D)
     # unlink_disallowed_observers removes the observer from the node
     UL = ctx.need_fn(R, q.STATE + "unlink_disallowed_observers")
     if UL is not None:
